@@ -290,6 +290,7 @@ def job(arg):
             res.sample({"path": ["", "<sandbox components>", "outside.txt"], "method": "all"})
         elif kind == "blocks":
             blocks(res, sb, holder)
+            concurrent_blocks(res, sb, holder)
             two_roots(res, sb)
         elif kind == "histories":
             relative_root(res, sb, holder)
@@ -513,6 +514,51 @@ def blocks(res, sb, holder):
     res.sample({"file_size": 1025, "szx": 0, "blocks": "0..64 in order and reversed"})
 
 
+def concurrent_blocks(res, sb, holder):
+    """Two or three block requests (other files, other offsets, other block sizes, other requesters) handed to the server in
+    the same loop pass: each is answered exactly as it is answered alone."""
+    names = ("s17.bin", "s1025.bin", "s2049.bin")
+    for nm in names:
+        n = int(nm[1:-4])
+        (sb.root / nm).write_bytes(content(n, n))
+    sw = holder.setdefault("blk", SiteWorld(lambda sw: FileServer(sb.root, sw.ctx.log.getChild("fs"), write=False)))
+    reqs = []
+    for nm in names:
+        n = int(nm[1:-4])
+        for szx in (0, 2, 6):
+            size = 1 << (szx + 4)
+            last = max(0, -(-n // size) - 1)
+            for num in sorted({0, 1, last}):
+                if num <= last:
+                    reqs.append((nm, num, szx))
+
+    def mk(r):
+        m = Message(code=GET, uri_path=[r[0]])
+        m.opt.block2 = (r[1], False, r[2])
+        return m
+
+    def view(r):
+        if r is None or not hasattr(r, "opt"):
+            return repr(r)
+        b2 = r.opt.block2
+        return (int(r.code), None if b2 is None else (b2.block_number, bool(b2.more), b2.size_exponent), bytes(r.payload), r.opt.etag)
+    alone = {r: view(sw.do(mk(r), 1)) for r in reqs}
+    groups = [(a, b) for a in reqs for b in reqs] + [(a, b, c) for a in reqs[::3] for b in reqs[1::4] for c in reqs[2::5]]
+    for g in groups:
+        got = [view(x) for x in sw.do_many([mk(r) for r in g], list(range(1, len(g) + 1)))]
+        res.evaluations += 1
+        res.signatures.add(("conc", g))
+        res.outcomes.add(("conc", all(a == alone[r] for a, r in zip(got, g))))
+        for a, r in zip(got, g):
+            if a != alone[r]:
+                short = lambda v: v if not isinstance(v, tuple) else (v[0], v[1], len(v[2]), v[2][:8].hex())
+                res.violate(Violation("block-fetch-concurrent", short(alone[r]), short(a), "cli/fileserver.py:render_get_file",
+                                      {"concurrent_requests(file,num,szx)": [list(x) for x in g]}, key="conc"))
+                break
+    for msg, e in sw.loop_exceptions():
+        res.violate(Violation("loop-exception", "none", core.exc_desc(e) if e else msg, core.site_of(e) if e else "loop", {"concurrent_blocks": True}, key="loop"))
+
+
 def run(tier, seed, jobs):
     p2 = [p for n in range(0, 3) for p in itertools.product(ALPHA, repeat=n)]
     p3 = list(itertools.product(ALPHA, repeat=3))
@@ -545,6 +591,8 @@ def replay(case, scenario, seed):
             replaced_between_fetches(res, sb, holder)
         elif "file_size" in case:
             blocks(res, sb, holder)
+        elif "concurrent_requests(file,num,szx)" in case or "concurrent_blocks" in case:
+            concurrent_blocks(res, sb, holder)
         else:
             comps = case["path"]
             base = [c for c in str(sb.base).split("/") if c]
